@@ -450,14 +450,20 @@ func (b *builder) polySeries(n int, x float64, why string, maxK int) {
 	if float64(n)/x < 0x1p-56 {
 		K = 0 // huge x: the integral alone is within n/(2x) relative
 	}
+	wide := 0.0
 	if K > maxK {
-		return
+		if x < 50*float64(n) {
+			return
+		}
+		// mid-large x: too many terms for the tight enclosure; the integral alone encloses to n/(2x) relative (coarser anchor)
+		K, wide = 0, 2.2*float64(n)/(2*x)
+		why += ":wide"
 	}
 	obs, p := safe(func() float64 { return sp.Polygamma(n, x) })
 	ref := polyRefBig(n, x)
 	an := &Anchor{Fam: "polygamma5", Label: "r5:" + why + ":" + polyLabel5(n, x), Fn: "PolygammaSeries", H: int(2 * x), K: n, x: x, obs: obs, ref: ref,
 		Desc: fmt.Sprintf("Polygamma(%d, %v) vs the series with integral tail bound (%d terms) [%s]", n, x, K, why), Bnd: true}
-	an.tol = 8 * float64(n+2) * ulp * math.Abs(ref)
+	an.tol = (8*float64(n+2)*ulp + wide) * math.Abs(ref)
 	if p {
 		an.NonFin = true
 	}
@@ -499,7 +505,7 @@ func (b *builder) polyRecur(n int, x float64, why string) {
 }
 
 func (b *builder) polygammaOrders() {
-	ns := []int{20, 21, 22, 26, 27, 28, 40, 100}
+	ns := []int{21, 22, 26, 27, 28, 100}
 	maxK := 900
 	if !b.quick {
 		ns = []int{2, 3, 8, 16, 20, 21, 22, 25, 26, 27, 28, 29, 33, 40, 60, 100, 172}
@@ -526,14 +532,13 @@ func (b *builder) polygammaOrders() {
 				why string
 			}{thr * (1 + 0x1p-12), "prefix>2/eps"})
 		}
+		type xw = struct {
+			x   float64
+			why string
+		}
+		xs = append(xs, xw{100 * T, "far-asymptotic"}, xw{0x1p20 * T, "far-asymptotic"})
 		if !b.quick {
-			xs = append(xs, struct {
-				x   float64
-				why string
-			}{4 * T, "asymptotic"}, struct {
-				x   float64
-				why string
-			}{10 * T, "asymptotic"})
+			xs = append(xs, xw{4 * T, "asymptotic"}, xw{10 * T, "asymptotic"}, xw{1000 * T, "far-asymptotic"}, xw{0x1p30 * T, "far-asymptotic"})
 		}
 		for _, c := range xs {
 			if n < 16 && c.x > 3 {
@@ -542,7 +547,11 @@ func (b *builder) polygammaOrders() {
 			b.polySeries(n, c.x, c.why, maxK)
 		}
 		// exact cross-branch relation across the transition point and across the special points
-		for _, x := range []float64{T - 1.5, T - 0.5, T, up(T), T + 0.5, 0.5, 1, down(lim), lim, 2 * T} {
+		rx := []float64{T - 0.5, T, up(T), 0.5, 1, down(lim)}
+		if !b.quick {
+			rx = append(rx, T-1.5, T+0.5, lim, 2*T)
+		}
+		for _, x := range rx {
 			b.polyRecur(n, x, "x->x+1")
 		}
 	}
